@@ -29,7 +29,9 @@ RULE = ("col: 2-3 repositories (app->lib; app->lib,util; app->mid->lib), compone
         "their build number in a file and use the saved-number builds detector (builds = bumps of the number, merges carry "
         "the old number of the first or of another parent); 20% of the components are built from master with a version file that is "
         "bumped between builds; 15% of the tagged commits also carry the first build tag of the next release line (higher "
-        "version, lower build counter); about half of the refs of the git stand-in are loose; parent and mid branch names also with numbers of different width "
+        "version, lower build counter); about half of the refs of the git stand-in are loose; 35% of the repositories have release lines with a version component 0 or 9998/9999/10000 (names, tags, pins, "
+        "included_at) and 35% have build counters that pass 9998/9999/10000/8888 at one of their commits (owner, component "
+        "and the middle repository of a chain alike); parent and mid branch names also with numbers of different width "
         "(release/5.9 vs release/5.10); the component map of a repository is configured on the class, on the object only, or "
         "on the object with a contradicting class-level map (a third each); every collection is analysed twice (the second answer must equal the "
         "first). non-trivial = col with a non-empty included_at somewhere, or ord with >=2 "
@@ -267,7 +269,7 @@ def parse_col(rep):
         builds = []
         for b in (bl.split(";") if bl else []):
             kind, bn, bc, cs, bumps, incl = b.split(":")
-            builds.append((kind, tuple(int(x) for x in bn.split(".")), None if bc == "-" else int(bc),
+            builds.append((kind, tuple(x if x == "?" else int(x) for x in bn.split(".")), None if bc == "-" else int(bc),
                            [] if cs == "-" else [int(x) for x in cs.split(",")],
                            [] if bumps == "-" else bumps.split("+"),
                            [] if incl == "-" else [tuple(x.split("~")) for x in incl.split("+")]))
@@ -618,7 +620,35 @@ def cver(c):
 
 def tag_nums(i, c):
     """build numbers of the tags on commit i (increasing along history); a fifth of the tagged commits carry two"""
-    return [10 * i + 1, 10 * i + 2] if c.get("two") else [10 * i + 1]
+    b = c.get("cb", 0)
+    return [b + 10 * i + 1, b + 10 * i + 2] if c.get("two") else [b + 10 * i + 1]
+
+
+BOUNDARY_LINES = [["release/0.0", "release/0.1", "release/1.0"], ["release/0.9", "release/0.10", "release/0.100"],
+                  ["release/5.9998", "release/5.9999", "release/5.10000"],
+                  ["release/9998.1", "release/9999.1", "release/10000.1"],
+                  ["release/0.9999", "release/1.0", "release/9999.0"]]
+
+
+def boundary_values(rng, commits, heads):
+    """version components 0 and 9998/9999/10000 in the names of the release lines (so in tags, pins and included_at), and
+    build counters that pass 9998, 9999, 10000 at some commit of the repository - the numbers of the pseudo builds are
+    9999.9999.9999 and 8888.8888.8888, a real build may have some of these components"""
+    from harness.c06 import spec_key
+    if rng.random() < 0.35:
+        names = sorted({c["line"] for c in commits if c["line"].startswith("release/")}, key=spec_key)
+        fam = rng.choice(BOUNDARY_LINES)
+        if len(names) <= len(fam):
+            ren = dict(zip(names, fam))
+            for c in commits:
+                c["line"] = ren.get(c["line"], c["line"])
+            for hd in heads:
+                hd[0] = ren.get(hd[0], hd[0])
+    if rng.random() < 0.35:
+        k = rng.randrange(len(commits))
+        base = rng.choice([9998, 9999, 10000, 8888]) - (10 * k + 1)
+        for c in commits:
+            c["cb"] = base
 
 
 def to_saved(rng, commits, heads):
@@ -641,17 +671,18 @@ def finish_repo(commits, heads):
         tagged = c.pop("tagged")
         c["t"] = [[M, m, n, n] for n in tag_nums(i, c)] if tagged else []
         if c.pop("svmode", False):
-            c["sv3"] = [M, m, 10 * i + 1] if tagged else list(commits[c["p"][c["svp"]]]["sv3"])
+            c["sv3"] = [M, m, tag_nums(i, c)[0]] if tagged else list(commits[c["p"][c["svp"]]]["sv3"])
             c["names"] = []             # no build tags: the builds are the bumps of the saved number
         c.pop("svp", None)
         if tagged and c.get("xl") and M < G.MASTER_STYLE_FROM:
             # the commit is also the first build of the next release line (fork point): a higher version with a
             # LOWER build counter - the order of the build numbers is not the order of the counters
-            c["t"].append([M, m + 1, 10 * i, 10 * i])
+            c["t"].append([M, m + 1, c.get("cb", 0) + 10 * i, c.get("cb", 0) + 10 * i])
         c.pop("line")
         c.pop("two", None)
         c.pop("vb", None)
         c.pop("xl", None)
+        c.pop("cb", None)
     return {"commits": commits, "refs": heads}
 
 
@@ -718,6 +749,7 @@ def gen_col(rng, shape, lib_lines):
     else:
         lib, lheads = gen_repo(rng, lib_lines, LIB_LINES if rng.random() < 0.8 else ["master"], pmerge=0.1)
     lib[0]["tagged"] = True
+    boundary_values(rng, lib, lheads)
     if shape.startswith("dagapp"):
         n = rng.randint(4, 9)
         hi, lo = rng.choice([("release/5.2", "release/5.1"), ("release/5.10", "release/5.9")])
@@ -730,6 +762,7 @@ def gen_col(rng, shape, lib_lines):
             aheads.append(["master", rng.randrange(n)])
     else:
         app, aheads = gen_repo(rng, 3, APP_LINES if rng.random() < 0.5 else rng.choice(APP_LINES_W))
+    boundary_values(rng, app, aheads)
     saved = set()
     if rng.random() < 0.25:
         saved.add("lib")
@@ -750,6 +783,7 @@ def gen_col(rng, shape, lib_lines):
     elif shape == "app-lib-util":
         util, uheads = gen_repo(rng, 1, ["release/3.0"], pmerge=0.1)
         util[0]["tagged"] = True
+        boundary_values(rng, util, uheads)
         add_pins(rng, app, "lib", lib)
         add_pins(rng, app, "util", util)
         repos = [{"name": "app", "deps": ["lib", "util"], "hist": None}, {"name": "lib", "deps": [], "hist": None},
@@ -758,6 +792,7 @@ def gen_col(rng, shape, lib_lines):
     else:   # chain app -> mid -> lib
         mid, mheads = gen_repo(rng, 2, MID_LINES if rng.random() < 0.5 else MID_LINES_W, pmerge=0.1, pmatch=0.2)
         mid[0]["tagged"] = True
+        boundary_values(rng, mid, mheads)
         add_pins(rng, mid, "lib", lib)
         add_pins(rng, app, "mid", mid)
         repos = [{"name": "app", "deps": ["mid"], "hist": None}, {"name": "mid", "deps": ["lib"], "hist": None},
@@ -1025,6 +1060,11 @@ def tags(case, replies):
         rs = [dec_repo(t) for t in case["lines"][0].split()[2:]]
         if any(r.get("mode") == "saved" for r in rs):
             yield "saved-number-detector"
+        nums = [x for r in rs for c in r["hist"]["commits"] for bn in c["t"] for x in bn[:3]]
+        if 0 in nums:
+            yield "version-component-0"
+        if any(x in (9998, 9999, 10000) for x in nums):
+            yield "component-9998..10000"
         if any(r.get("skipped") for r in rs):
             yield "skipped-entry-named-as-component" if any(x["name"] in r["deps"] for r in rs for x in rs if x.get("skipped")) \
                 else "skipped-entry"
